@@ -91,9 +91,17 @@ def gen_config(rng, sp, profile):
     builder = []
     if action == "bench":
         cli.append("--bench")
-        cli += ["--timer", "tsc"] if rng.random() < 0.7 else []
-        if "--timer" not in cli:
-            env["DIVAN_TIMER"] = "tsc"
+        if getattr(sp, "clock_os", False):
+            # the OS timer is the default: leave it unnamed, or name it by flag or variable
+            r = rng.random()
+            if r < 0.3:
+                cli += ["--timer", "os"]
+            elif r < 0.5:
+                env["DIVAN_TIMER"] = "os"
+        else:
+            cli += ["--timer", "tsc"] if rng.random() < 0.7 else []
+            if "--timer" not in cli:
+                env["DIVAN_TIMER"] = "tsc"
     elif action == "test":
         if rng.random() < 0.5:
             cli.append("--test")
@@ -105,7 +113,7 @@ def gen_config(rng, sp, profile):
     elif action == "list_benches":
         cfg.run_mode = "list"
         it.action = "list"
-    if action != "bench" and rng.random() < profile.get("p_timer_flag", 0.0):
+    if action != "bench" and not getattr(sp, "clock_os", False) and rng.random() < profile.get("p_timer_flag", 0.0):
         # the timer choice must not change what a test run or a listing selects (coarse virtual counters, tiny budgets)
         if rng.random() < 0.6:
             cli += ["--timer", "tsc"]
